@@ -6,7 +6,8 @@
                      the final `as u32` casts)
      read_row       (the pending run of empty cells, materialised only when another cell
                      element follows; values and formulas pushed in lockstep)
-     read_table     (cells / formulas / cols / rows_repeats, then get_range twice)
+     read_table     (cells / formulas / cols / rows_repeats, the 2^32 total-rows limit, then
+                     get_range twice)
      get_datatype   (attribute loop: first value attribute wins, value-type "string" without a
                      value attribute takes the text:p content) and the repeat-count attributes
 
@@ -255,19 +256,28 @@ Fixpoint read_row (cs : list cell_elem) (pending : N) : list (V * F) :=
   end.
 
 (* read_table's loop: all pushed cells, the offsets pushed to `cols` after each row, and
-   `rows_repeats`.  [len] = cells.len() before the row. *)
-Fixpoint read_rows (rows : list row_elem) (len : N) : list (V * F) * list N * list N :=
+   `rows_repeats`.  [len] = cells.len() before the row, [tot] = total_rows (u64, saturating):
+   as soon as the rows announced so far exceed 2^32 the table is rejected (OdsError::Mismatch),
+   before the row's cells are read. *)
+Definition ERR_MISMATCH : N := 5.
+
+Fixpoint read_rows (rows : list row_elem) (len tot : N)
+  : outcome (list (V * F) * list N * list N) :=
   match rows with
-  | [] => ([], [], [])
+  | [] => Ok ([], [], [])
   | r :: rs =>
+    let tot' := N.min (tot + re_rep r) U64MAX in          (* saturating_add *)
+    if TWO32 <? tot' then Err ERR_MISMATCH else           (* > u32::MAX as u64 + 1 *)
     let row := read_row (re_cells r) 0 in
     let len' := len + N.of_nat (length row) in
-    let '(cs, cols, rr) := read_rows rs len' in
-    (row ++ cs, len' :: cols, re_rep r :: rr)
+    do x <- read_rows rs len' tot';
+    let '(cs, cols, rr) := x in
+    Ok (row ++ cs, len' :: cols, re_rep r :: rr)
   end.
 
 Definition read_table (rows : list row_elem) : outcome (range V * range F) :=
-  let '(cs, cols, rr) := read_rows rows 0 in
+  do x <- read_rows rows 0 0;
+  let '(cs, cols, rr) := x in
   do rv <- get_range dV isdV (map fst cs) (0 :: cols) rr;
   do rf <- get_range dF isdF (map snd cs) (0 :: cols) rr;
   Ok (rv, rf).
@@ -298,10 +308,18 @@ Definition row_width (r : row_elem) : N := sum_list (map ce_rep (re_cells r)).
 Definition max_width (rows : list row_elem) : N := fold_right (fun r m => N.max (row_width r) m) 0 rows.
 
 (* the guard of the main theorem: every row / column index fits u32 and the cell count of the
-   full sheet fits usize *)
+   full sheet fits usize.  The row part is exactly what read_table accepts (at most 2^32 rows
+   announced, trailing empty rows included: beyond that the file is rejected with an error). *)
 Definition extent_ok (rows : list row_elem) : bool :=
   (total_rows rows <=? TWO32) && (max_width rows <=? TWO32) &&
   (total_rows rows * max_width rows <=? USIZE_MAX).
+
+(* the guard of the no-panic theorem: what any machine that holds the parsed rows satisfies by far
+   (a Vec has at most isize::MAX elements); the product bounds get_range's `cells_len` *)
+Definition ISIZE_MAX : N := 9223372036854775807.
+Definition phys_ok (rows : list row_elem) : bool :=
+  (N.of_nat (length rows) <=? ISIZE_MAX) &&
+  (N.of_nat (length rows) * max_width rows <=? USIZE_MAX).
 
 End ReadTable.
 
